@@ -69,9 +69,10 @@ func checkBankMethods(w *World, r *Report) {
 
 type settleRule struct {
 	caseRule
-	tm    *Terms
-	batch bool
-	loops map[*Loop]string
+	tm       *Terms
+	batch    bool
+	loopCls  map[string]string // class of an outermost transfer loop, per calling context
+	loopKind map[string]bool   // is the loop a transfer loop (per calling context)
 }
 
 const (
@@ -151,11 +152,58 @@ func (s *settleRule) step(st uint64, cls string) uint64 {
 	return st
 }
 
+// transferLoop: a loop that repeats transfers for the members of one auction (per bidder, per instalment) — as opposed to
+// the loop over the auctions themselves, whose body (in context) advances an auction's status.
+func (s *settleRule) transferLoop(fr *Frame, l *Loop) bool {
+	key := fmt.Sprintf("%s|%d", fr.id, l.Header.Index)
+	if v, ok := s.loopKind[key]; ok {
+		return v
+	}
+	status := false
+	see := func(in ssa.Instruction) {
+		if e := s.w.EffectOf(in); e != nil && e.Kind == EffStatusWrite {
+			status = true
+		}
+	}
+	for _, b := range fr.Fn.Blocks {
+		if !l.Blocks[b] {
+			continue
+		}
+		for _, in := range b.Instrs {
+			see(in)
+			if ci, isCall := in.(ssa.CallInstruction); isCall {
+				if callee := s.w.calleeBody(ci.Common()); callee != nil && !fr.inChain(callee) {
+					s.tm.walkFrom(s.tm.Enter(fr, ci, callee), func(_ *Frame, cin ssa.Instruction) { see(cin) })
+				}
+			}
+		}
+	}
+	s.loopKind[key] = !status
+	return !status
+}
+
+// inLoopContext: the instruction runs inside a transfer loop of its own function or of a caller on the frame chain.
+func (s *settleRule) inLoopContext(fr *Frame, in ssa.Instruction) bool {
+	for l := fnInfo(in.Parent()).LoopOf[in.Block()]; l != nil; l = l.Parent {
+		if s.transferLoop(fr, l) {
+			return true
+		}
+	}
+	for f := fr; f != nil && f.Parent != nil && f.Call != nil; f = f.Parent {
+		for l := fnInfo(f.Parent.Fn).LoopOf[f.Call.Block()]; l != nil; l = l.Parent {
+			if s.transferLoop(f.Parent, l) {
+				return true
+			}
+		}
+	}
+	return false
+}
+
 func (s *settleRule) OnInstr(x *Explorer, fr *Frame, in ssa.Instruction, st uint64) uint64 {
 	if e := s.w.EffectOf(in); e != nil {
 		switch e.Kind {
 		case EffTransfer:
-			if fnInfo(in.Parent()).LoopOf[in.Block()] != nil {
+			if s.inLoopContext(fr, in) {
 				return st // the region event at loop entry stands for it
 			}
 			return s.step(st, classOfTransfer(s.w, s.tm, fr, in))
@@ -168,20 +216,44 @@ func (s *settleRule) OnInstr(x *Explorer, fr *Frame, in ssa.Instruction, st uint
 	return st
 }
 
+// OnLoopEnter: entering an outermost loop (no enclosing loop in the function or up the frame chain) whose body, including
+// everything it calls, performs transfers of one class counts as one settlement step of that class.
 func (s *settleRule) OnLoopEnter(x *Explorer, fr *Frame, l *Loop, st uint64) uint64 {
-	if l.Parent != nil {
+	if !s.transferLoop(fr, l) {
 		return st
 	}
-	cls, ok := s.loops[l]
+	for p := l.Parent; p != nil; p = p.Parent {
+		if s.transferLoop(fr, p) {
+			return st // an enclosing transfer loop already stands for it
+		}
+	}
+	if fr.Call != nil && fr.Parent != nil && s.inLoopContext(fr.Parent, fr.Call) {
+		return st
+	}
+	key := fmt.Sprintf("%s|%d", fr.id, l.Header.Index)
+	cls, ok := s.loopCls[key]
 	if !ok {
-		for b := range l.Blocks {
+		note := func(c string) {
+			if c != "" {
+				cls = c
+			}
+		}
+		for _, b := range fr.Fn.Blocks {
+			if !l.Blocks[b] {
+				continue
+			}
 			for _, in := range b.Instrs {
-				if c := classOfTransfer(s.w, s.tm, fr, in); c != "" {
-					cls = c
+				note(classOfTransfer(s.w, s.tm, fr, in))
+				if ci, isCall := in.(ssa.CallInstruction); isCall {
+					if callee := s.w.calleeBody(ci.Common()); callee != nil && !fr.inChain(callee) {
+						s.tm.walkFrom(s.tm.Enter(fr, ci, callee), func(cfr *Frame, cin ssa.Instruction) {
+							note(classOfTransfer(s.w, s.tm, cfr, cin))
+						})
+					}
 				}
 			}
 		}
-		s.loops[l] = cls
+		s.loopCls[key] = cls
 	}
 	if cls != "" {
 		return s.step(st, cls)
@@ -193,7 +265,7 @@ func checkSettleSeq(w *World, r *Report, tm *Terms) {
 	rolesTM = tm
 	bb := w.beginBlockFn()
 	for _, typ := range []int64{1, 2} {
-		sr := &settleRule{caseRule: *newCase(w, func(*Effect, ssa.Instruction) bool { return false }), tm: tm, batch: typ == 2, loops: map[*Loop]string{}}
+		sr := &settleRule{caseRule: *newCase(w, func(*Effect, ssa.Instruction) bool { return false }), tm: tm, batch: typ == 2, loopCls: map[string]string{}, loopKind: map[string]bool{}}
 		sr.enums = []enumFix{
 			{name: "status", val: stStarted, match: func(t *Term, v ssa.Value) bool {
 				return isNamed(v.Type(), typesPath, "AuctionStatus") && isField(t, "Status")
@@ -364,6 +436,7 @@ func checkC02(w *World, r *Report) {
 	checkPairFee(w, r, tm)
 	checkMsgProp(w, r, tm, "MSG-PROP")
 	// "the only amounts that leave a user's account are the fee and the amount reserved" / "the unused part of the reservation"
-	r.Sub(func(w *World, r *Report) { checkC01(w, r) }, "CREDIT-RECORD", "PAIR-RESERVE", "DRAIN")
+	r.Sub(func(w *World, r *Report) { checkC01(w, r) }, "CREDIT-RECORD", "PAIR-RESERVE", "DRAIN", "VEST-SHARE", "VEST-REM", "VEST-ONCE", "VEST-DISTINCT")
 	r.Sub(checkC04, "RD-SIB", "REFUND-PROV")
+	r.Sub(checkC19, "ID-MONO")
 }
